@@ -16,5 +16,7 @@ def run(ctx, rep):
         rt.rule_is_boundary(rep, crate, cfg)
         rt.rule_token_end_writers(rep, crate, cfg)
     rep.analysed['configs'] = cfgs
+    if ctx.tier == 'thorough':
+        rt.rule_witnesses(rep, ctx)
     rep.trusted += ['rustc nightly MIR construction', 'engines/mirfacts', 'str::is_char_boundary (std) rejects index > len']
     rep.assumptions += ['LexerInternal::end / end_to_boundary are a trusted (doc(hidden)) interface for generated code; the property speaks of bump']
